@@ -1,5 +1,6 @@
 import Lean.Data.Json
 import LogicaModel.Escape
+import LogicaModel.TypeAlg
 /-! Request handlers of the line-protocol driver (executable definitions of the models only). -/
 open Lean
 
@@ -49,9 +50,64 @@ def handleEscape (op : String) (j : Json) : Except String Json := do
     | .undefinedFlags => return Json.mkObj [("err", "undefined-flags")]
   | _ => throw ("unknown op " ++ op)
 
+/-! ### TypeAlg -/
+open TypeAlg in
+mutual
+  partial def tyOfJson (j : Json) : Except String Ty := do
+    match j with
+    | .str "Any" => pure .any | .str "Singular" => pure .singular | .str "Sequential" => pure .sequential
+    | .str "Num" => pure .num | .str "Str" => pure .str | .str "Bool" => pure .bool
+    | .str "Time" => pure .time | .str "Bad" => pure .bad
+    | _ =>
+      match j.getObjVal? "list" with
+      | .ok e => return .list (← tyOfJson e)
+      | .error _ =>
+        match j.getObjVal? "open" with
+        | .ok fs => return .record false (← fieldsOfJson fs)
+        | .error _ =>
+          match j.getObjVal? "closed" with
+          | .ok fs => return .record true (← fieldsOfJson fs)
+          | .error _ => throw "bad type json"
+  partial def fieldsOfJson (j : Json) : Except String Fields := do
+    let arr ← j.getArr?
+    let mut acc : Fields := .nil
+    for p in arr.reverse do
+      let k ← (← p.getArrVal? 0).getNat?
+      let t ← tyOfJson (← p.getArrVal? 1)
+      acc := .cons k t acc
+    return acc
+end
+
+open TypeAlg in
+mutual
+  partial def tyToJson : Ty → Json
+    | .any => "Any" | .singular => "Singular" | .sequential => "Sequential" | .num => "Num"
+    | .str => "Str" | .bool => "Bool" | .time => "Time" | .bad => "Bad"
+    | .list e => Json.mkObj [("list", tyToJson e)]
+    | .record false fs => Json.mkObj [("open", Json.arr (fieldsToJson fs).toArray)]
+    | .record true fs => Json.mkObj [("closed", Json.arr (fieldsToJson fs).toArray)]
+  partial def fieldsToJson : Fields → List Json
+    | .nil => []
+    | .cons k t r => Json.arr #[Json.num k, tyToJson t] :: fieldsToJson r
+end
+
+def handleTypeAlg (op : String) (j : Json) : Except String Json := do
+  match op with
+  | "meet" =>
+    let a ← tyOfJson (← j.getObjVal? "a")
+    let b ← tyOfJson (← j.getObjVal? "b")
+    return Json.mkObj [("m", tyToJson (TypeAlg.meet a b))]
+  | "meet3" =>
+    let a ← tyOfJson (← j.getObjVal? "a")
+    let b ← tyOfJson (← j.getObjVal? "b")
+    let c ← tyOfJson (← j.getObjVal? "c")
+    return Json.mkObj [("m", tyToJson (TypeAlg.meet (TypeAlg.meet a b) c))]
+  | _ => throw ("unknown op " ++ op)
+
 def handle (j : Json) : Except String Json := do
   let op ← str j "op"
   if ["strlit", "lex", "useflags", "buildflags"].contains op then handleEscape op j
+  else if ["meet", "meet3"].contains op then handleTypeAlg op j
   else throw ("unknown op " ++ op)
 
 end Logica.Ops
